@@ -387,7 +387,16 @@ def register(props):
     props.PROPS["C12"] = {
         "theory": "Properties/C12.v",
         "families": ["c12pure", "c12struct"],
-        "rule": "c12pure: call histories of 1..12 calls (valid raw values, mutated ones, an arbitrary Go value injected at a random "
+        "rule": "[desc: the SELF-DESCRIPTION of the instance - flags, default text and rule lists (required_if / required_if_not / conflicts, "
+                "in the order the schema holds them) of every property of every object, SelfSerialize of a scope - is taken before the "
+                "first call, after EVERY call of the history (failing ones included), after the probes and on a fresh instance; "
+                "c12pure also runs 40 objects of 3..5 properties whose rule lists name up to three properties in ANY order with "
+                "histories that end in the empty map (every property unset: the rejections of the presence rules); c12struct draws its "
+                "generated schemas from the shared struct-mapped generator incl. XMid (three levels with a plain object in the middle), "
+                "XHold (a one-of member), multi-name rule lists, every other case in rich mode (member defaults and declared partial "
+                "object defaults everywhere), 40 % of the history slots followed by the empty map (fills every default at every level), "
+                "and probes every object-typed member (and its members) given as the empty map against a fresh instance] "
+                "c12pure: call histories of 1..12 calls (valid raw values, mutated ones, an arbitrary Go value injected at a random "
                 "position, the empty map that fills every default, native values for Validate/Serialize; failing calls included) on "
                 "every fixed schema of the C04 family, on seeded generated scopes and on three fixed scope-free schemas whose "
                 "objects have defaults (top level, inline sub-object, list of objects); every call evaluated 20 times on freshly built "
